@@ -51,6 +51,8 @@ def atoms(tier='quick'):
     return A
 
 
+# atoms only the schema-driven XML reference codec can spell (the convention codecs address members by attribute name)
+XML_ONLY_ATOMS = {'Integer(sub_name)', 'Unicode(sub_name)'}
 ATOM_CLASSES = {'Q': {'n': 'Q', 'fields': [['q', ['p', 'Integer', {}]], ['qs', ['p', 'Unicode', {}]]]}}
 
 
@@ -174,6 +176,8 @@ def program_for(atom_t, pos):
             m['ret'] = None
     elif pos == 'xmlattr':
         if not simple or bt[1] == 'ByteArray' and False:
+            return None
+        if 'sub_name' in (validity.attrs_of(atom_t) or {}):
             return None
         prog['classes'].append({'n': 'P', 'fields': [['z', I], ['f', ['xa', atom_t]]]})
         m['args'] = [['a', ['c', 'P', {}]]]
